@@ -503,7 +503,11 @@ def oracle(case, coq, impl):
                 if p not in g["L"]:
                     return where + "yielded PID %d which was not listed when the iteration started" % p
                 if p in g["cache"] and p not in g["marked"]:
-                    replaced_stale = g["cache"][p] in found_at and found_at[g["cache"][p]] < idx and o not in g["seen0"]
+                    # b70d950: a cached instance known to be recycled is replaced by a fresh one.  "Known" is visible to
+                    # this oracle only for explicit is_running() calls; where as_dict may have run it out of sight ('ppid'
+                    # requested somewhere in the history) a fresh object is accepted without that evidence.
+                    known_stale = hidden_isrun or (g["cache"][p] in found_at and found_at[g["cache"][p]] < idx)
+                    replaced_stale = known_stale and o not in g["seen0"]
                     if o != g["cache"][p] and not replaced_stale:
                         return where + "PID %d was cached and still listed but another object was yielded" % p
                 elif o in g["seen0"]:
@@ -798,7 +802,11 @@ def _run_sched(case, env, psutil):
             objs = list(psutil.process_iter())
             fp.remove(2)
             fp.add(2, starttime=200)
-            assert objs[1].pid == 2 and objs[1].is_running() is False and psutil._pids_reused == {2}
+            o2 = [o for o in objs if o.pid == 2]
+            if [o.pid for o in objs] != [1, 2, 3] or not o2:
+                # the sequential warm-up already misbehaves: report it as the implementation's answer
+                return [["exc", "WarmupMismatch", repr([o.pid for o in objs])]] * 2
+            o2[0].is_running()
             res = run_two(lambda tid: [p.pid for p in psutil.process_iter()], case["schedule"])
         return [list(r) for r in res]
     finally:
